@@ -172,3 +172,28 @@ def snapshot(coords):
 
 def unchanged(coords, snap):
     return all(c.shape == s.shape and c.dtype == s.dtype and np.array_equal(c, s) for c, s in zip(coords, snap))
+
+
+# the same values handed over as different kinds of objects (the SAME object is used for both calls of a case)
+ARG_KINDS = ["tuple", "list", "f64", "int"]
+
+
+def arg_obj(kind, values):
+    """(object, python expression rebuilding it); 'int' only for integer-valued data, else a float64 ndarray"""
+    vals = [float(v) for v in values]
+    if kind == "int" and not all(v == int(v) for v in vals):
+        kind = "f64"
+    if kind == "tuple":
+        return tuple(vals), repr(tuple(vals))
+    if kind == "list":
+        return list(vals), repr(list(vals))
+    if kind == "f64":
+        return np.array(vals, dtype="float64"), "np.array(%r, dtype='float64')" % (vals,)
+    return np.array([int(v) for v in vals]), "np.array(%r)" % ([int(v) for v in vals],)
+
+
+def same_values(obj, values):
+    try:
+        return [float(x) for x in np.asarray(obj, dtype=float).ravel()] == [float(v) for v in values]
+    except Exception:
+        return False
